@@ -477,15 +477,40 @@ def made_defs(repo, rel, prefix):
         raise Untranslatable("MaskedLinear.forward is not F.linear(x, self.weight * self.mask, self.bias)", fw)
     defs.append((prefix + "forward_uses_masked_weight",
                  "Definition %sforward_uses_masked_weight : bool := true.\n" % prefix))
+    # every other place of the file that touches a layer's weight or calls F.linear: allowed only in MaskedLinear.forward
+    # (where it is multiplied by the mask) and in constructors / initialisers (values, not evaluation)
+    rows = []
+    for node in src.tree.body:
+        scopes = []
+        if isinstance(node, ast.FunctionDef):
+            scopes.append((node.name, node))
+        elif isinstance(node, ast.ClassDef):
+            scopes += [(node.name + "." + m_.name, m_) for m_ in node.body if isinstance(m_, ast.FunctionDef)]
+        for qn, fn_ in scopes:
+            init_like = fn_.name in ("__init__", "_initialize", "reset_parameters", "main")
+            for c in ast.walk(fn_):
+                use = None
+                if isinstance(c, ast.Attribute) and c.attr == "weight":
+                    use = "weight"
+                elif isinstance(c, ast.Call) and ast.unparse(c.func) in ("F.linear", "torch.nn.functional.linear", "nn.functional.linear"):
+                    use = "F.linear"
+                elif isinstance(c, ast.Call) and isinstance(c.func, ast.Attribute) and c.func.attr in ("matmul", "mm", "addmm") \
+                        and "weight" in ast.unparse(c):
+                    use = "matmul"
+                if use:
+                    rows.append((qn, use, init_like or qn == "MaskedLinear.forward"))
+    tbl = "; ".join('("%s", "%s", %s)' % (qn, use, "true" if ok_ else "false") for qn, use, ok_ in rows)
+    defs.append((prefix + "weight_uses",
+                 "Definition %sweight_uses : list (string * string * bool) := [%s].\n" % (prefix, tbl)))
     return defs
 
 
 def g_made_t(repo):
-    return made_defs(repo, "nflows/transforms/made.py", "madeT_"), "From Coq Require Import Arith.\nLocal Open Scope nat_scope.\n\n"
+    return made_defs(repo, "nflows/transforms/made.py", "madeT_"), "From Coq Require Import Arith String.\nLocal Open Scope string_scope.\nLocal Open Scope nat_scope.\n\n"
 
 
 def g_made_n(repo):
-    return made_defs(repo, "nflows/nn/nde/made.py", "madeN_"), "From Coq Require Import Arith.\nLocal Open Scope nat_scope.\n\n"
+    return made_defs(repo, "nflows/nn/nde/made.py", "madeN_"), "From Coq Require Import Arith String.\nLocal Open Scope string_scope.\nLocal Open Scope nat_scope.\n\n"
 
 
 GROUPS += [
@@ -1588,3 +1613,190 @@ def g_tail_wrappers(repo):
 
 GROUPS += [("TailWrappers", g_tail_wrappers, ["nflows/transforms/splines/linear.py", "nflows/transforms/splines/quadratic.py",
                                                "nflows/transforms/splines/cubic.py", "nflows/transforms/splines/rational_quadratic.py"])]
+
+
+# ---------------------------------------------------------------- linear family: matrix expression trees
+class MatTr:
+    """weight / weight_inverse / forward_no_cache / inverse_no_cache / logabsdet of LULinear, QRLinear, SVDLinear, NaiveLinear
+    -> terms of Model/MatExpr.v (mexpr, sexpr).  Statement forms: assignments, tuple assignments from a sub-transform call,
+    augmented += / *= / /= with self.bias / self.diagonal, return."""
+
+    def __init__(self, cls):
+        self.cls = cls
+
+    def m(self, e, env):
+        u = ast.unparse(e)
+        if isinstance(e, ast.Name):
+            if e.id not in env:
+                raise Untranslatable("%s: unbound matrix %s" % (self.cls, e.id), e)
+            return env[e.id]
+        if u == "self._weight":
+            return "EW"
+        if isinstance(e, ast.Call):
+            f = ast.unparse(e.func)
+            kw = {k.arg: k.value for k in e.keywords}
+            if f == "torch.eye":
+                return "EEye"
+            if f == "torch.diag" and len(e.args) == 1:
+                a = ast.unparse(e.args[0])
+                if a == "self.diagonal":
+                    return "(EDiag false)"
+                if a == "torch.reciprocal(self.diagonal)":
+                    return "(EDiag true)"
+                raise Untranslatable("%s: torch.diag argument" % self.cls, e)
+            if f == "F.linear" and len(e.args) in (2, 3) and not kw:
+                if len(e.args) == 3 and ast.unparse(e.args[2]) != "self.bias":
+                    raise Untranslatable("%s: F.linear bias" % self.cls, e)
+                return "(ELinear %s %s %s)" % (self.m(e.args[0], env), self.m(e.args[1], env), "true" if len(e.args) == 3 else "false")
+            if f == "torch.linalg.solve_triangular" and len(e.args) == 2:
+                def flag(name, default):
+                    if name not in kw:
+                        return default
+                    v = kw[name]
+                    if isinstance(v, ast.Constant) and isinstance(v.value, bool):
+                        return "true" if v.value else "false"
+                    raise Untranslatable("%s: solve_triangular flag %s" % (self.cls, name), e)
+                if set(kw) - {"upper", "unitriangular"} or "upper" not in kw:
+                    raise Untranslatable("%s: solve_triangular keywords" % self.cls, e)
+                return "(ESolve %s %s %s %s)" % (flag("upper", None), flag("unitriangular", "false"), self.m(e.args[0], env), self.m(e.args[1], env))
+            if f == "torch.inverse" and len(e.args) == 1:
+                return "(EInv %s)" % self.m(e.args[0], env)
+            if f == "torch.lu_solve" and len(e.args) == 3 and ast.unparse(e.args[1]) == "lu" and ast.unparse(e.args[2]) == "lu_pivots":
+                if env.get("lu") != "LU(EW)":
+                    raise Untranslatable("%s: lu must be torch.lu(self._weight)" % self.cls, e)
+                b = self.m(e.args[0], env)
+                return "(EInv EW)" if b == "EEye" else "(ELuSolve EW %s)" % b
+            if isinstance(e.func, ast.Attribute) and e.func.attr == "t" and not e.args:
+                return "(ETr %s)" % self.m(e.func.value, env)
+            raise Untranslatable("%s: matrix call %s" % (self.cls, f), e)
+        if isinstance(e, ast.BinOp):
+            if isinstance(e.op, ast.MatMult):
+                return "(EMul %s %s)" % (self.m(e.left, env), self.m(e.right, env))
+            if isinstance(e.op, (ast.Add, ast.Sub)) and ast.unparse(e.right) == "self.bias":
+                return "(EBias %s %s)" % ("true" if isinstance(e.op, ast.Sub) else "false", self.m(e.left, env))
+        raise Untranslatable("%s: matrix expression %s" % (self.cls, u[:60]), e)
+
+    def s(self, e, env):
+        u = ast.unparse(e)
+        if isinstance(e, ast.Name) and e.id in env:
+            return env[e.id]
+        if u == "self.logabsdet()":
+            return "SLogAbsDet"
+        if u in ("torch.sum(torch.log(self.upper_diag))", "torch.sum(self.log_upper_diag)", "torch.sum(self.log_diagonal)"):
+            return "SSumLogDiag"
+        if u == "torchutils.logabsdet(self._weight)":
+            return "SSlogdetW"
+        if u == "torch.sum(torch.log(torch.abs(torch.diag(lu))))":
+            if env.get("lu") != "LU(EW)":
+                raise Untranslatable("%s: lu must be torch.lu(self._weight)" % self.cls, e)
+            return "SSumLogAbsDiagLU"
+        if isinstance(e, ast.UnaryOp) and isinstance(e.op, ast.USub):
+            return "(SNeg %s)" % self.s(e.operand, env)
+        if isinstance(e, ast.BinOp) and isinstance(e.op, ast.Mult):
+            # scalar * ones(batch): the per-row value is the scalar
+            for a, b in ((e.left, e.right), (e.right, e.left)):
+                ub = ast.unparse(b)
+                if ub.endswith(".new_ones(outputs.shape[0])") or ub.endswith(".new_ones(batch_size)") or ub.endswith(".new_ones(inputs.shape[0])"):
+                    return self.s(a, env)
+        raise Untranslatable("%s: scalar expression %s" % (self.cls, u[:60]), e)
+
+    def method(self, fn):
+        """-> (kind, term[s]) for a method body"""
+        env = {"inputs": "EIn"}
+        senv = {}
+        for st in fn.body:
+            if isinstance(st, ast.Expr) and isinstance(st.value, ast.Constant):
+                continue
+            if isinstance(st, ast.Assign) and len(st.targets) == 1:
+                t, v = st.targets[0], st.value
+                uv = ast.unparse(v)
+                if isinstance(t, ast.Tuple):
+                    names = [ast.unparse(x) for x in t.elts]
+                    if uv == "self._create_lower_upper()" and names == ["lower", "upper"]:
+                        env["lower"], env["upper"] = "ELower", "EUpper"
+                        continue
+                    if uv == "torch.lu(self._weight)" and names == ["lu", "lu_pivots"]:
+                        env["lu"] = "LU(EW)"
+                        senv["lu"] = "LU(EW)"
+                        continue
+                    if len(names) == 2 and names[1] == "_" and isinstance(v, ast.Call):
+                        f = ast.unparse(v.func)
+                        mt = {"self.orthogonal": (1, False), "self.orthogonal.inverse": (1, True),
+                              "self.orthogonal_1": (1, False), "self.orthogonal_1.inverse": (1, True),
+                              "self.orthogonal_2": (2, False), "self.orthogonal_2.inverse": (2, True)}
+                        if f in mt and len(v.args) == 1 and not v.keywords:
+                            k, inv = mt[f]
+                            env[names[0]] = "(EOrth %d %s %s)" % (k, "true" if inv else "false", self.m(v.args[0], env))
+                            continue
+                    raise Untranslatable("%s.%s: tuple assignment" % (self.cls, fn.name), st)
+                if isinstance(t, ast.Name):
+                    if uv == "self._create_upper()":
+                        env[t.id] = "EUpper"
+                        continue
+                    if uv == "inputs.shape[0]":
+                        continue
+                    if t.id.startswith("logabsdet"):
+                        senv[t.id] = self.s(v, senv)
+                        continue
+                    env[t.id] = self.m(v, env)
+                    continue
+            if isinstance(st, ast.AugAssign) and isinstance(st.target, ast.Name) and st.target.id in env:
+                rv = ast.unparse(st.value)
+                if rv == "self.bias" and isinstance(st.op, (ast.Add, ast.Sub)):
+                    env[st.target.id] = "(EBias %s %s)" % ("true" if isinstance(st.op, ast.Sub) else "false", env[st.target.id])
+                    continue
+                if rv == "self.diagonal" and isinstance(st.op, (ast.Mult, ast.Div)):
+                    env[st.target.id] = "(EScale %s %s)" % ("true" if isinstance(st.op, ast.Div) else "false", env[st.target.id])
+                    continue
+            if isinstance(st, ast.Return):
+                v = st.value
+                if isinstance(v, ast.Tuple) and len(v.elts) == 2:
+                    a, b = v.elts
+                    return ("pair", self.m(a, env), self.s(b, senv))
+                try:
+                    return ("matrix", self.m(v, env))
+                except Untranslatable:
+                    return ("scalar", self.s(v, senv))
+            raise Untranslatable("%s.%s: statement form" % (self.cls, fn.name), st)
+        raise Untranslatable("%s.%s: no return" % (self.cls, fn.name), fn)
+
+
+def g_linear_family(repo):
+    defs = []
+    plan = [("nflows/transforms/lu.py", "LULinear", "lu"), ("nflows/transforms/qr.py", "QRLinear", "qr"),
+            ("nflows/transforms/svd.py", "SVDLinear", "svd"), ("nflows/transforms/linear.py", "NaiveLinear", "naive")]
+    for rel, cls, pre in plan:
+        src = Source(repo, rel)
+        tr = MatTr(cls)
+        for meth in ("weight", "weight_inverse", "logabsdet", "forward_no_cache", "inverse_no_cache"):
+            r = tr.method(src.method(cls, meth))
+            if r[0] == "matrix":
+                defs.append(("%s_%s" % (pre, meth), "Definition %s_%s : mexpr := %s.\n" % (pre, meth, r[1])))
+            elif r[0] == "scalar":
+                defs.append(("%s_%s" % (pre, meth), "Definition %s_%s : sexpr := %s.\n" % (pre, meth, r[1])))
+            else:
+                defs.append(("%s_%s" % (pre, meth), "Definition %s_%s : mexpr * sexpr := (%s, %s).\n" % (pre, meth, r[1], r[2])))
+        # optional combined accessor (the cache fills from it)
+        for meth in ("weight_and_logabsdet", "weight_inverse_and_logabsdet"):
+            try:
+                fn = src.method(cls, meth)
+            except Untranslatable:
+                continue
+            r = tr.method(fn)
+            if r[0] != "pair":
+                raise Untranslatable("%s.%s must return (matrix, logabsdet)" % (cls, meth), fn)
+            defs.append(("%s_%s" % (pre, meth), "Definition %s_%s : mexpr * sexpr := (%s, %s).\n" % (pre, meth, r[1], r[2])))
+    # the base class' combined accessors (used when a subclass does not override them)
+    src = Source(repo, "nflows/transforms/linear.py")
+    for meth, want in (("weight_and_logabsdet", "return (self.weight(), self.logabsdet())"),
+                       ("weight_inverse_and_logabsdet", "return (self.weight_inverse(), self.logabsdet())")):
+        fn = src.method("Linear", meth)
+        body = [s_ for s_ in fn.body if not (isinstance(s_, ast.Expr) and isinstance(s_.value, ast.Constant))]
+        if len(body) != 1 or ast.unparse(body[0]) != want:
+            raise Untranslatable("Linear.%s must be `%s`" % (meth, want), fn)
+    defs.append(("base_combined_accessors_delegate", "Definition base_combined_accessors_delegate : bool := true.\n"))
+    return defs, "From NF Require Import Model.MatExpr.\n\n"
+
+
+GROUPS += [("LinearFamily", g_linear_family, ["nflows/transforms/lu.py", "nflows/transforms/qr.py", "nflows/transforms/svd.py",
+                                               "nflows/transforms/linear.py"])]
